@@ -354,14 +354,14 @@ def engine_cv(run):
     return E
 
 
-def check_internal_cv(run, E):
+def check_internal_cv(run, E, pid='C04'):
     """_internal_cv: folds come from sets_k_fold(sample, the caller's descriptors and fold counts, random=True); the noise
     ceiling is the cross-validated one of those folds (before the index expansion) when something is cross-validated, else the
     leave-one-GROUP-out ceiling of the sample with the caller's rdm_descriptor; every fold's pattern indices are expanded to
     the bootstrap multiplicities (_concat_sampling with the drawn indices); crossval gets exactly these folds, the caller's
     method / fitter / pattern_descriptor and no ceiling computation; its evaluations and that ceiling are returned"""
     for kcase in ('cv', 'no-cv'):
-        ck = FuncCheck(E, run, 'C04', EV + '_internal_cv', kcase)
+        ck = FuncCheck(E, run, pid, EV + '_internal_cv', kcase)
 
         def mk(E, kcase=kcase):
             kp, kr = (E.sym_int('k_pattern'), E.sym_int('k_rdm')) if kcase == 'cv' else (1, 1)
